@@ -682,6 +682,11 @@ def run(ctx):
     elif bad_idx:
         tie_broken += ['Model.Linalg structure of %s disagrees with the implementation (symmetry %s, case %d)' % meta[i] for i in bad_idx[:10]]
         ctx.extra['disagreeing_cases'] = [exprs[i][:3000] for i in bad_idx[:2]]
+    # ---- f_mul_diag (the u.diag(s) / v.diag(w) of the C09b / C11b theorems) vs FermionicArray.multiply_diagonal
+    import tie_muldiag
+    tie_broken += tie_muldiag.tie(ctx, sr)
+    for f in tie_muldiag.found[:3]:
+        fnd.found.append(('multiply_diagonal: %s' % (f.get('error') or f.get('raised')), {'oracle': 'tie_muldiag (numpy broadcasting on the input blocks)', **f}))
     seen = set()
     fnd.found.sort(key=lambda wr: wr[1].get('family_if_unlisted') is not None)    # unclassified failures first
     for what, rep in fnd.found:
